@@ -583,9 +583,19 @@ func runC13(t *sim.Tape, opt sim.RunOpt) *sim.Outcome {
 		}
 	}
 	o.ProbeN("fault_points_enumerated", int64(len(points)))
+	// How many single-fault positions one run may enumerate before it falls
+	// back to a tape-drawn sample of them (always reported as sampled). The
+	// quick tier is sized by work, not by the clock, so that the number of
+	// evaluations is a function of (seed, tier) alone.
 	cap := 2500
-	if w.Codec != "stub" {
+	if opt.Tier != "thorough" {
+		cap = 600
+	}
+	if w.Codec != "stub" && cap > 400 {
 		cap = 400
+	}
+	if w.Codec != "stub" && opt.Tier != "thorough" {
+		cap = 150
 	}
 	if len(points) > cap {
 		// Too many for one run: keep a tape-drawn sample (reported, so the
